@@ -2019,6 +2019,11 @@ def check_implied_attrs(context, decls):
     for decl in decls:
         expr = decl.attrs["implied"]
         if expr:
+            if not isinstance(expr, str):
+                raise RuntimeError(
+                    "implied attribute must have an expression as value, not '{}'"
+                    .format(expr)
+                )
             check_implied(context, expr, decls)
 
 
